@@ -441,8 +441,13 @@ def _solve(idx):
     if not more_insts:
         attempts = [(False, budget // 6, 0), (False, budget // 3, 7), (False, budget, 13)]
     verdict, model, reason = "unknown", None, ""
-    for with_more, tmo, seed in attempts:
-        verdict, model, why = _hard_check(base + (list(more_insts) if with_more else []), tmo, seed, leaves)
+    import random
+    for k_att, (with_more, tmo, seed) in enumerate(attempts):
+        asserts = base + (list(more_insts) if with_more else [])
+        if k_att >= 2:
+            # restarts also permute the assertions: the search is sensitive to their order
+            random.Random(seed + k_att).shuffle(asserts)
+        verdict, model, why = _hard_check(asserts, tmo, seed, leaves)
         if verdict != "unknown":
             break
         reason = why
